@@ -20,6 +20,8 @@ type MemLoc struct {
 	// BeforeWrite, when set, is called at the start of every Write and may block (the harness
 	// decides when the write completes)
 	BeforeWrite func(path string)
+	// FailWrite, when set, may make a Write fail: nothing is stored then.
+	FailWrite func(path string) error
 }
 
 func NewMemLoc() *MemLoc { return &MemLoc{Files: map[string][]byte{}} }
@@ -41,6 +43,12 @@ func (m *MemLoc) Write(path string, data io.Reader) (string, error) {
 	}
 	if m.BeforeWrite != nil {
 		m.BeforeWrite(path) // may block: the harness decides when the write completes
+	}
+	if m.FailWrite != nil {
+		if err := m.FailWrite(path); err != nil {
+			m.note("failed-write " + path)
+			return "", err
+		}
 	}
 	m.mu.Lock()
 	m.Files[path] = b
